@@ -223,7 +223,7 @@ func init() {
 		pClockLo: 0, pClockHi: 40, shouldUpd: 100, costFn: 100, metricsPM: 300, epilogue: "std", quiescePM: 20, starveAppl: 250})
 	// C03/C09: capacity pressure
 	add(&profile{name: "capacity", clientsLo: 1, clientsHi: 4, opsLo: 10, opsHi: 40, keysLo: 6, keysHi: 16,
-		mix:     mix{get: 40, set: 35, setTTL: 3, del: 5, wait: 5, upmax: 2, reads: 3, yield: 2, setRoom: 8, clear: 1},
+		mix:     mix{get: 40, set: 35, setTTL: 3, del: 5, wait: 5, upmax: 2, reads: 3, yield: 2, setRoom: 12, clear: 1},
 		capMode: []int{CapFew, CapFew, CapHalf, CapTiny, CapExactly}, bufSmall: 300, collide: 0, strKeys: 100,
 		pClockLo: 0, pClockHi: 20, costFn: 300, metricsPM: 500, epilogue: "std", quiescePM: 60, costMono: 500, starveAppl: 100})
 	// C05: deletes racing buffered inserts on a focus key
@@ -288,6 +288,9 @@ func GenPlan(profName string, seed uint64) *Plan {
 			h := base + uint64(i)*257 + uint64(g.n(3))*256
 			for j := 0; j < grp && i < nkeys; j++ {
 				conf := uint64(1000 + i*7 + g.n(5))
+				if g.p(120) {
+					conf = 0 // no conflict hash: the guarantee does not cover this key
+				}
 				c.Keys = append(c.Keys, KeySpec{Int: uint64(i + 1), Hash: h, Conflict: conf})
 				if j > 0 {
 					p.Flags.Injective = false
@@ -495,7 +498,17 @@ func GenPlan(profName string, seed uint64) *Plan {
 				prog = append(prog, Op{K: OpYield, Arg: int64(g.rng(1, 6))})
 			case 11:
 				k := drawKey()
-				prog = append(prog, Op{K: OpSetRoom, Key: k, Arg: int64(g.rng(-2, 2)), FnC: baseCost[k]})
+				arg := int64(g.rng(-2, 2))
+				if g.p(500) {
+					arg = 0 // exactly fills the remaining room
+				}
+				if g.p(400) {
+					prog = append(prog, Op{K: OpWait}) // let the accounting settle first
+				}
+				prog = append(prog, Op{K: OpSetRoom, Key: k, Arg: arg, FnC: baseCost[k]})
+				if g.p(500) {
+					prog = append(prog, Op{K: OpWait})
+				}
 			}
 		}
 		p.Clients = append(p.Clients, prog)
